@@ -686,7 +686,14 @@ theorem fresh_keys_structure :
     "hmac.Equal" ∈ O4.Facts.Obfs4.clientHandshake_parseServerHandshake_calls ∧
     "ntor.CompareAuth" ∈ O4.Facts.Obfs4.clientHandshake_parseServerHandshake_calls ∧
     "framing.NewDecoder" ∉ O4.Facts.Obfs4.clientHandshake_parseServerHandshake_calls ∧
-    "framing.NewDecoder" ∈ O4.Facts.Obfs4.obfs4Conn_clientHandshake_calls := by
+    "framing.NewDecoder" ∈ O4.Facts.Obfs4.obfs4Conn_clientHandshake_calls ∧
+    -- every handshake object keys its own HMAC instance (no `hash.Hash` shared between
+    -- concurrent handshakes of one factory)
+    "hmac.New" ∈ O4.Facts.Obfs4.func_newServerHandshake_calls ∧
+    "hmac.New" ∈ O4.Facts.Obfs4.func_newClientHandshake_calls ∧
+    "newServerHandshake" ∈ O4.Facts.Obfs4.obfs4Conn_serverHandshake_calls ∧
+    "newClientHandshake" ∈ O4.Facts.Obfs4.obfs4Conn_clientHandshake_calls ∧
+    "hmac.New" ∉ O4.Facts.Obfs4.Transport_ServerFactory_calls := by
   decide
 
 end C02
